@@ -87,10 +87,10 @@ Definition run_fix (c : sexp) : sexp :=
               let fuel := fuel_of b p in
               let fmt := format_pattern true fixture_function (transform_fixture tr) None
                            (rules_for_locale first_locale) custom_print unescape_total unescape_total_s f64_from_str_exact
-                           b (dec_args args) fuel p [] in
+                           b (dec_args args) fuel (pick_top b entry) p [] in
               let wrt := write_pattern true fixture_function (transform_fixture tr) None
                            (rules_for_locale first_locale) custom_print unescape_total unescape_total_s f64_from_str_exact
-                           b (dec_args args) fuel p [] in
+                           b (dec_args args) fuel (pick_top b entry) p [] in
               soutcome (fun x => x)
                 (let* (ftext, fsc) := fmt in
                  let* (wtoks, wsc) := wrt in
